@@ -386,13 +386,19 @@ def segments_intersect_facets(segments, facets, eps=1e-6):
         sv = np.sum((t[i] - s[1]) * np.cross(t[j] - s[1], s[0] - s[1]), axis=1)
         v.append(np.sign(sv))
 
-    # same volume if s and t have same sign in v0, v1 and v2
-    same_volume = np.logical_and((v[0] == v[1]), (v[1] == v[2]))
+    # same volume if s and t have same sign in v0, v1 and v2. A zero volume (the
+    # segment passes through an edge or a corner of t) fits both signs.
+    v = np.array(v)
+    same_volume = np.all(v >= 0, axis=0) | np.all(v <= 0, axis=0)
 
-    return cross * same_volume
+    # a segment that starts or ends in a corner of t touches t there and cannot
+    # cross it (neighboring facets of a mesh)
+    touch = np.any(np.all(s[:, None] == t[None, :], axis=-1), axis=(0, 1))
+
+    return cross * same_volume * ~touch
 
 
-def get_intersecting_triangles(vertices, triangles, r=None, r_factor=1.5, eps=1e-6):
+def get_intersecting_triangles(vertices, triangles, r=None, r_factor=2.0, eps=1e-6):
     """Return intersecting triangles indices from a triangular mesh described
     by vertices and triangles indices.
 
@@ -414,12 +420,22 @@ def get_intersecting_triangles(vertices, triangles, r=None, r_factor=1.5, eps=1e
         time.
 
     eps: float
-        Point to point tolerance detection. Must be strictly positive,
+        Point to point tolerance detection, in units of the mesh size (largest
+        extent of its bounding box). Must be strictly positive,
         otherwise some triangles may be detected as intersecting themselves.
     """
     if r_factor < 1:  # pragma: no cover
         raise ValueError("r_factor must be greater or equal to 1")
 
+    # express all lengths in units of the mesh size, measured from a corner of its
+    # bounding box, so that eps does not depend on the length unit or the position
+    # of the mesh and float32 resolves it
+    vertices = np.asarray(vertices, dtype=float)
+    size = np.max(np.ptp(vertices, axis=0))
+    if size > 0:
+        vertices = (vertices - np.min(vertices, axis=0)) / size
+        if r is not None:
+            r = r / size
     vertices = vertices.astype(np.float32)
     facets = vertices[triangles]
     centers = np.mean(facets, axis=1)
